@@ -56,6 +56,14 @@ type FRef struct {
 	N      int32
 }
 
+// FLong: field names longer than 64 characters (whatever a decoder clips for messages must not reach the lookup)
+type FLong struct {
+	ThisFieldNameIsLongerThanSixtyFourCharactersWhichIsAnArbitraryLimit0001 int32
+	ThisFieldNameIsLongerThanSixtyFourCharactersWhichIsAnArbitraryLimit0002 string
+	Beta                                                                    string
+	ThisFieldNameIsLongerThanSixtyFourCharactersWhichIsAnArbitraryLimit0003 int64
+}
+
 // F12: a wide struct (a decoder might index the fields of wide structs differently)
 type F12 struct {
 	A01 int32
@@ -95,6 +103,7 @@ func (c05) Cases(tier string, seed int64, kf *KnownFindings) []Case {
 	add(Case{Kind: "bigpos", Seed: Mix(seed, 7), Count: len(c05bigPos) * 4})
 	add(Case{Kind: "skipref", Seed: Mix(seed, 5), Count: 30})
 	add(Case{Kind: "dupdef", Seed: Mix(seed, 6), Count: 12})
+	add(Case{Kind: "twonames", Seed: Mix(seed, 8), Count: 8})
 	n, per := 8, 100
 	if tier == "thorough" {
 		n, per = 128, 1500
@@ -414,8 +423,9 @@ func (c05) Run(c Case, env *Env) Result {
 	tEmpty := reflect.TypeOf(FEmpty{})
 	tEmb := reflect.TypeOf(FEmb{})
 	tWide := reflect.TypeOf(F12{})
+	tLong := reflect.TypeOf(FLong{})
 	for j := lo; j < hi; j++ {
-		if c.Kind == "skipref" || c.Kind == "dupdef" {
+		if c.Kind == "skipref" || c.Kind == "dupdef" || c.Kind == "twonames" {
 			c05special(c, j, env, &res)
 			continue
 		}
@@ -454,6 +464,10 @@ func (c05) Run(c Case, env *Env) Result {
 			case 4:
 				sp.goType = tWide
 				feats = append(feats, "wide-struct")
+				if r.Intn(3) == 0 {
+					sp.goType = tLong
+					feats = append(feats, "long-field-names")
+				}
 			case 0:
 				sp.goType = t3
 			case 1:
@@ -619,7 +633,7 @@ func (c05) Run(c Case, env *Env) Result {
 			if sharedDec == nil {
 				// one complete type map for the whole batch, so that no Register* call is needed between streams
 				all := map[string]reflect.Type{"test.Inner": reflect.TypeOf(zoo.Inner{}), "[int32": reflect.TypeOf([]int32{}),
-					"test.Target.F5": t5, "test.Target.F3c": t3, "test.Target.FCase": tCase, "test.Target.FEmpty": tEmpty, "test.Target.FEmb": tEmb, "test.Target.F12": tWide}
+					"test.Target.F5": t5, "test.Target.F3c": t3, "test.Target.FCase": tCase, "test.Target.FEmpty": tEmpty, "test.Target.FEmb": tEmb, "test.Target.F12": tWide, "test.Target.FLong": tLong}
 				for i := 0; i <= 1030; i++ {
 					all[fmt.Sprintf("test.Filler%02d", i)] = reflect.TypeOf(Filler{})
 				}
@@ -718,6 +732,26 @@ func c05special(c Case, j int, env *Env, res *Result) {
 		expect = &FRef{Owner: in, Editor: in, N: 7}
 		desc = fmt.Sprintf("fields=%v (unknown container field %s)", names, hspec.ShortString(unk))
 		feats = append(feats, "unknown-container-before-backref")
+	case "twonames":
+		// two class NAMES that the receiver's type map sends to ONE Go struct, with different field lists
+		// (two versions of a class): each instance is built from the definition it names
+		tm["v1.Range"], tm["v2.Range"] = reflect.TypeOf(F5{}), reflect.TypeOf(F5{})
+		a := hspec.Object("v1.Range", []string{"alpha", "beta"}, hspec.Int(int32(j)), hspec.String("one"))
+		b := hspec.Object("v2.Range", []string{"beta", "gone", "eps", "alpha"}, hspec.String("two"), hspec.String("dropped"), hspec.Long(int64(j)<<33), hspec.Int(int32(j+1)))
+		a2 := hspec.Object("v1.Range", []string{"alpha", "beta"}, hspec.Int(int32(j+2)), hspec.String("three"))
+		l := hspec.List("", a, b, a2, b)
+		if j%2 == 1 {
+			l = hspec.List("", b, a, b, a2)
+		}
+		enc.Value(l)
+		stream = enc.Out
+		wa, wb, wa2 := &F5{Alpha: int32(j), Beta: "one"}, &F5{Alpha: int32(j + 1), Beta: "two", Eps: int64(j) << 33}, &F5{Alpha: int32(j + 2), Beta: "three"}
+		expect = []interface{}{wa, wb, wa2, wb}
+		if j%2 == 1 {
+			expect = []interface{}{wb, wa, wb, wa2}
+		}
+		desc = "two class names (other field lists) decoded into one Go struct type"
+		feats = append(feats, "two-class-names-one-go-type")
 	case "dupdef":
 		n := 3 + j%4
 		l := hspec.List("")
